@@ -19,7 +19,12 @@ def load():
     if PROVIDERS:
         return PROVIDERS
     _try("c06", "history", "pipeline")
-    for mod, label in [("c05", "pubsub"), ("c04req", "req"), ("c04rep", "rep"), ("c07", "survey"), ("c08", "pair"), ("c09", "bus")]:
+    try:
+        from .props import c05
+        PROVIDERS.append(("pubsub", lambda seed, tier, i: c05.gen_case(seed, tier, i)[1]))
+    except Exception:
+        pass
+    for mod, label in [("c04req", "req"), ("c04rep", "rep"), ("c07", "survey"), ("c08", "pair"), ("c09", "bus")]:
         _try(mod, "history", label)
     return PROVIDERS
 
